@@ -77,6 +77,8 @@ impl LockFile {
 			.open(&self.path)
 			.map_err(|e| Error::Io(Arc::new(e)))?;
 
+		#[cfg(surrealkv_verif)]
+		crate::verif::callback_point("lock:before-acquire");
 		// Try to lock the file exclusively using fs2
 		file.try_lock_exclusive().map_err(|e| match e.kind() {
 			ErrorKind::WouldBlock => Error::Other(format!(
